@@ -162,6 +162,7 @@ def run_case(res, case, sigs, attempt=0):
     repeat_uid = mode == 'storage-dir' and r.random() < 0.6
     concurrent = mode == 'storage-dir' and repeat_uid and r.random() < 0.4
     source = r.choice(['memory', 'file'])
+    close_in_handler = r.random() < 0.3
     outcomes = [r.choice([0x0000, 0x0000, 0xB000, 0xB007, 0xA700, 0xC123, 'raise']) for _ in range(nstores)]
     sop_class = r.choice([svc.CT, svc.MR])
     jitter = r.choice([0.0, 0.002]) * (0 if attempt else 1)
@@ -197,6 +198,9 @@ def run_case(res, case, sigs, attempt=0):
             else:
                 entry['path'] = getattr(ds, 'name', None)
                 d = pydicom.dcmread(ds)
+                if close_in_handler:
+                    # an application that consumes the file and closes it itself
+                    ds.close()
                 entry['meta'] = (str(d.file_meta.MediaStorageSOPClassUID),
                                  str(d.file_meta.MediaStorageSOPInstanceUID),
                                  str(d.file_meta.TransferSyntaxUID))
@@ -245,7 +249,7 @@ def run_case(res, case, sigs, attempt=0):
                                 ds = datasets[k]
                                 if source == 'file':
                                     path = os.path.join(workdir, 'src-%d.dcm' % k)
-                                    write_part10(ds, path, u)
+                                    write_part10(ds, path, u, incomplete_meta=(i + k) % 3 == 0)
                                     arg = path
                                 else:
                                     arg = ds
@@ -295,7 +299,7 @@ def _guard(fn, ks, out):
         out.append(exc)
 
 
-def write_part10(ds, path, ts):
+def write_part10(ds, path, ts, incomplete_meta=False):
     import pydicom
     from pydicom.dataset import FileDataset, FileMetaDataset
     import copy
@@ -307,7 +311,19 @@ def write_part10(ds, path, ts):
     fd = FileDataset(path, copy.deepcopy(ds), file_meta=meta, preamble=b'\0' * 128)
     fd.is_little_endian = ts.is_little_endian
     fd.is_implicit_VR = ts.is_implicit_VR
-    fd.save_as(path, write_like_original=False)
+    if not incomplete_meta:
+        fd.save_as(path, write_like_original=False)
+        return
+    # a file whose meta header lacks the SOP Instance UID (written by sloppy software): the
+    # storage user then has to look the UID up in the data set itself
+    from pydicom.filewriter import write_file_meta_info
+    from pydicom.filebase import DicomFileLike
+    from pynetdicom2 import dsutils
+    del meta.MediaStorageSOPInstanceUID
+    with open(path, 'wb') as f:
+        f.write(b'\0' * 128 + b'DICM')
+        write_file_meta_info(DicomFileLike(f), meta, enforce_standard=False)
+        f.write(dsutils.encode(ds, ts.is_implicit_VR, ts.is_little_endian))
 
 
 def memory_scp(classes):
